@@ -56,6 +56,7 @@ type FuncContract struct {
 	Lets     []letDef
 	Opts     map[string]bool
 	Uses     []string
+	Splits   []Expr
 	File     string
 	Line     int
 }
@@ -119,7 +120,7 @@ func newSpecs() *Specs {
 	return &Specs{Funcs: map[string]*FuncContract{}, SpecFuncs: map[string]*SpecFunc{}, Lemmas: map[string]*Lemma{}, Ghosts: map[string]*GhostComp{}, Macros: map[string]*Macro{}}
 }
 
-var keywordRe = regexp.MustCompile(`^(func|extern|requires|ensures|modifies|loop|at|let|opt|spec|ghost|lemma|use|decreases|define)\b`)
+var keywordRe = regexp.MustCompile(`^(func|extern|requires|ensures|modifies|loop|at|let|opt|spec|ghost|lemma|use|decreases|define|split)\b`)
 var tagRe = regexp.MustCompile(`^\[([A-Za-z0-9, ]*)\]\s*`)
 var labelRe = regexp.MustCompile(`^([A-Za-z_][A-Za-z0-9_.]*):\s*`)
 
@@ -360,6 +361,19 @@ func (sp *Specs) loadFile(path string, commentOnly bool) error {
 				cur.Lets = append(cur.Lets, ld)
 			} else {
 				return fail(fmt.Errorf("let outside block"))
+			}
+		case "split":
+			if cur == nil {
+				return fail(fmt.Errorf("split outside func"))
+			}
+			for _, p := range splitTop(rest, ',') {
+				if p = strings.TrimSpace(p); p != "" {
+					e, err := parseExpr(p)
+					if err != nil {
+						return fail(err)
+					}
+					cur.Splits = append(cur.Splits, e)
+				}
 			}
 		case "opt":
 			if curLemma != nil {
